@@ -56,7 +56,10 @@ Inductive jtype := JInt | JFloat | JBool | JStr | JDate | JEnum (names : list st
 
 (** One element of an engine array.  Ints, bools (0/1) and enum indices are [RZ]; floats
     are [RZ] when integral (the arrays of Engine.v) or [RQ]. *)
-Inductive raw := RZ (z : Z) | RQ (q : Q) | RS (s : string) | RD (d : date).
+Inductive raw :=
+  | RZ (z : Z) | RQ (q : Q) | RS (s : string) | RD (d : date)
+  | RF (exact shortest : Q).   (* a float32 whose shortest decimal text, read back as a double, is not the
+                                  float32 value itself (0.1, 18518.518): the value, and float(str(x)) *)
 
 (* str(numpy.datetime64(..., 'D')) / date.isoformat() *)
 Definition iso_date (d : date) : string := let '(y, m, dd) := d in iso_text y m dd.
@@ -74,10 +77,19 @@ Definition render (ty : jtype) (r : raw) : leaf :=
   | JBool, RZ z => Bool (negb (z =? 0))
   | JFloat, RZ z => Flt (inject_Z z)
   | JFloat, RQ q => Flt q
+  | JFloat, RF _ s => Flt s          (* float(str(result[i])): the shortest text that identifies the float32 *)
   | JStr, RS s => Str s
   | JDate, RD d => Str (iso_date d)
   | JEnum names, RZ z => Str (nth (Z.to_nat z) names "")
   | _, _ => Null      (* an array whose dtype is not the variable's: never produced *)
+  end.
+
+(** FlatTrace.serialize: like [render], except that a float array goes through tolist():
+    every element is the double equal to the float32 value. *)
+Definition serialize (ty : jtype) (r : raw) : leaf :=
+  match ty, r with
+  | JFloat, RF e _ => Flt e
+  | _, _ => render ty r
   end.
 
 Fixpoint index_of (x : string) (l : list string) : option nat :=
@@ -241,7 +253,7 @@ Section Handler.
                 let '(s2, y) := trace_values s1 r in
                 (s2, match y with
                      | Err e => Err e
-                     | Ok t => Ok ((trace_key v (canon pk), map (render ty) arr) :: t)
+                     | Ok t => Ok ((trace_key v (canon pk), map (serialize ty) arr) :: t)
                      end)
             end
         end
@@ -530,7 +542,7 @@ Definition leaf_Q (l : leaf) : option Q :=
   end.
 
 Definition raw_Q (r : raw) : option Q :=
-  match r with RZ z => Some (inject_Z z) | RQ q => Some q | _ => None end.
+  match r with RZ z => Some (inject_Z z) | RQ q => Some q | RF e _ => Some e | _ => None end.
 
 (** the text an element is compared by, for the value types compared exactly *)
 Definition raw_text (ty : jtype) (r : raw) : option string :=
